@@ -242,7 +242,7 @@ BP('C13', 'rf-c13-2', 'rf-c13-2.diff',
 BP('C13', 'rf-c13-3', 'rf-c13-3.diff',
    'independent refactoring: BlockRangeImporter (block_ranges_importer.rs): the duplicated computation, in `run` and `run_legacy`, of which block ranges still need a Merkle root (resume from the end of the highest stored block range, or from block 0 when none is stored, and skip when a stored range exists but no new complete range f')
 BP('C13', 'rf-c13-4', 'rf-c13-4.diff',
-   'independent refactoring: CardanoTransactionRepository (mithril-persistence, cardano_transaction_repository.rs): in `remove_rolled_back_transactions_and_block_range_by_block_number` the three delete statements (blocks+transactions above the block number, block range roots and legacy block range roots containing or above it) are e')
+   'independent refactoring: CardanoTransactionRepository (mithril-persistence, cardano_transaction_repository.rs): in `remove_rolled_back_transactions_and_block_range_by_block_number` the three delete statements (blocks+transactions above the block number, block range roots and legacy block range roots containing or above it) are e [second hunk re-applied by hand after fix F16 rewrote the by-slot roll-back; the delivered patch is kept as rf-c13-4.orig.diff.txt]')
 BP('C15', 'rf-c15-1', 'rf-c15-1.diff',
    'independent refactoring: MithrilCertifierService::create_certificate (mithril-aggregator/src/services/certifier/certifier_service.rs): the two persistence steps that seal a round (certificate insert, then open-message update with is_certified = true) are extracted, in the same order, into a new private async helper `store_certif')
 BP('C15', 'rf-c15-2', 'rf-c15-2.diff',
